@@ -132,7 +132,8 @@ def run(ctx):
             consts[nm] = v.n if isinstance(v, I) else None
     if rec and len(consts) == 2:
         for upper in (0, 1):
-            outs = run_traces(f, rec, [R(sym('lhs')), R(sym('rhs')), sym('operation')], inline_depth=0, const_params={'UPPER': upper})
+            # the set/run/restore sequence may sit in a private (cfg-gated) helper of the rounding module: followed
+            outs = run_traces(f, rec, [R(sym('lhs')), R(sym('rhs')), sym('operation')], inline_depth=2, inline_only=(ROUND,), const_params={'UPPER': upper})
             problems = set()
             for o in outs:
                 seq = []
